@@ -72,7 +72,7 @@ func maxSends(fn *ssa.Function, pred func(ssa.Instruction) bool) int {
 func runC19(c *Ctx) {
 	p := c.Progs["mod"]
 	c.Rule("C19.I", "chain of custody of (backend ID, request ID) and of the stored bytes", 23)
-	c.Rule("C19.K", "key agreement between write and read paths; ordered blob parts", 9)
+	c.Rule("C19.K", "key agreement between write and read paths; ordered blob parts; stored entities stay loadable", 13)
 	c.Rule("C19.C", "completion flag", 3)
 	c.Rule("C19.S", "cache and datastore keys encode (backend ID, request ID) injectively, same roles on both sides; the caching store delegates with its own parameters, context included (= C17.S)", 5)
 	c17Sibling(c, p, "C19.S") // includes the key rules; the caching store hands its own parameters (context included) to the store it wraps
@@ -431,6 +431,7 @@ func runC19(c *Ctx) {
 		}
 	}
 	ruleBlobParts(c, p, "C19.K")
+	ruleStoredEntityLoadable(c, p, "C19.K", "app/store.storedRequest", "app/store.storedResponse", "app/store.blob", "app/store.blobPart")
 	if f := c.need(p, "C19.K", "app/store.newBlob"); f != nil {
 		okN := false
 		if as := AllocsOf(f, "app/store.blob"); len(as) >= 1 {
@@ -624,6 +625,9 @@ func c19Hangs(c *Ctx, p *Prog) {
 					return
 				}
 				for k, a := range PArgs(cc) {
+					if a == nil {
+						continue
+					}
 					if isMk(a) && k < len(g.Params) {
 						pk := g.Params[k]
 						isP := func(v ssa.Value) bool {
@@ -734,6 +738,14 @@ func c19Hangs(c *Ctx, p *Prog) {
 		if ok {
 			_, isC := ConstInt(PArgs(CallOf(wt[0]))[1])
 			ok = isC
+			if !ok {
+				// … or a configured duration whose interval is positive and bounded (validated
+				// against constant limits wherever it is set)
+				if win, err := (&interp{p: p, globals: map[string]iv{}}).evalValue(PArgs(CallOf(wt[0]))[1], 0); err == nil && win.kind == 'i' && win.ilo.Sign() > 0 && win.ihi.IsInt64() && win.ihi.Int64() <= int64(10*60*1e9) {
+					ok = true
+					c.Infof("%s: wait bounded by a configured time-out in %s ns", name, win)
+				}
+			}
 		}
 		// every loop iteration passes a select with the derived ctx.Done whose arm returns
 		okSel := false
